@@ -27,6 +27,24 @@ def op_chains(rng, q, focus):
                 ops.append(("RC",))
                 if focus == "C14":
                     ops.append(("COMM", rng.choice([1, n - 1, rng.randrange(0, 2 * n + 1), n // 2, n + 2])))
+            elif x < 0.74 and focus in ("C14", "C15"):
+                # a history on ONE object: look, edit in place, look again (rec >> 0 and rec << n return the object itself)
+                if focus == "C15":
+                    s0 = str(rec.seq)
+                    ops.append(("IN", s0[:3]))
+                    ops.append(("R", 0))
+                    new = gen.rnd(n, rng) if rng.random() < 0.5 else gen.rnd(rng.randint(3, n + 3), rng)
+                    ops.append(("SETSEQ", new))
+                    ops.append(("IN", s0[:3]))
+                    ops.append(("IN", (new + new)[len(new) - 2:len(new) + 2]))
+                else:
+                    ops.append(("RCPEEK",))       # r.reverse_complement(), r annotated in place, r.reverse_complement() again
+                    a = rng.randrange(n)
+                    ops.append(("ADDFEAT", a, min(n, a + rng.randint(1, 5)), rng.choice([1, -1])))
+                    ops.append(("RCPEEK",))
+                    ops.append(("R", 0))
+                    ops.append(("ADDFEAT", 0, min(n, 3), 1))
+                    ops.append(("RCPEEK",))
             elif x < 0.85:
                 s = str(rec.seq)
                 L = rng.choice([0, 1, 2, n - 1, n, n + 1, n + 2, rng.randint(0, n + 2)])
@@ -128,7 +146,7 @@ def replay_case(rec):
         if e["ev"] == "Rot":
             ops.append((e["dir"], e["k"]))
         elif e["ev"] == "RevComp":
-            ops.append(("RC",))
+            ops.append(("RCPEEK",) if e.get("peek") else ("RC",))
         elif e["ev"] == "Commute":
             ops.append(("COMM", e["k"]))
         elif e["ev"] == "Contains":
